@@ -190,7 +190,9 @@ def run(ctx):
                 'unnormalised, random; every mode c/r/a, stp None/0.5/1; chi / stp / tol left unset in every documented spelling '
                 '(omitted, None, 0, 0.0; by keyword, positionally, mixed, as the command line constructor string: full product on '
                 'planar 2x2, rotated 3x3, colour 3, every (chi spelling, mode) on the other codes with n <= 13, in rotation in '
-                'decode calls on all sizes); exact group sums in integer arithmetic; '
+                'decode calls on all sizes); one decoder object per class and mode serving sequences of codes (equal rows+cols, '
+                'transposed, equal rows / cols, grow and shrink, colour 3 / 5), forwards and backwards, every step against the '
+                'exact sums; exact group sums in integer arithmetic; '
                 'nontrivial = distinct (code, syndrome, distribution) with non-zero syndrome and (non-square lattice or '
                 'biased distribution)' % (ctx.pick('2x2..3x4', '2x2..4x4'), ctx.pick('3x3..4x4', '3x3..4x5')))
     ctx.props_obligations()
@@ -525,6 +527,14 @@ def run(ctx):
     c10_spell.run_spellings(ctx, sys.modules[__name__], families, add, builder)
     sect['unset spellings'] = round(time.time() - t_sec, 1)
     t_sec = time.time()
+    # ---- one decoder object serving several codes in sequence (added after a seeded change that cached a layer of the
+    #      network on the decoder keyed by the network SHAPE - shared by rotated codes of equal rows+cols - was missed: every
+    #      decoder above is constructed for one code): each class / mode walks through codes of equal rows+cols, transposed
+    #      sizes, equal rows / cols, growing and shrinking sizes; every step against the exact sums of that code
+    from harness import c10_reuse
+    c10_reuse.run_reuse(ctx, sys.modules[__name__], builder, add)
+    sect['one decoder, many codes'] = round(time.time() - t_sec, 1)
+    t_sec = time.time()
     # ---- correspondence with the extracted model -----------------------------------------------------------
     out = ctx.model('c10', req, timeout=1500)
     for (fn, inp, impl), mo, line in zip(exp, out, req):
@@ -589,6 +599,9 @@ def replay(path):
     if rep.get('check') == 'c10_net':      # a site / contraction of the network built by create_tn (harness/c10_net.py)
         from harness import c10_net
         return c10_net.replay_dict(rep)
+    if rep.get('check') == 'c10_reuse':    # a history of one decoder object over several codes (harness/c10_reuse.py)
+        from harness import c10_reuse
+        return c10_reuse.replay_dict(rep)
     if ('decoder' not in rep and 'construct' not in rep) or 'dist' not in rep or 'syndrome' not in rep:
         return 0
     import logging
